@@ -38,3 +38,70 @@ Example C02_runs :
          (EBin 1 (ELeaf 0) (EBin 2 (ELeaf 1) (EConst (S:=ZS) 3%Z))) m 0) (seq 0 7)
   = [-28; -56; -84; -112; -140; -168; 9]%Z.
 Proof. vm_compute. reflexivity. Qed.
+
+(** * Tie to the source (translator).  The loops every elementwise assignment to a tensor runs
+    (tensor/TensorAssignment.h, tensor/TensorInplaceOperators.h), as translated on every run: the five
+    trivial_assign*(dst, expression) functions have exactly the loop structure of [assign] above and apply the
+    operator they are named after in the vector loop, the scalar remainder and the boolean scalar loop; with a
+    number on the right the only exception is the documented reciprocal-multiply (division by a non-integral
+    number); Tensor::operator op= -> assign_op -> trivial_assign_op preserves the operator *)
+From Coq Require Import Bool.
+From FastorV Require Import Gen.GeneratedAccess Proofs.GenAccessEq.
+Theorem C02_source_assignment_loops :
+  gen_trivial_assign_expr = map (fun o => (o, o, o, o)) (seq 0 5) /\
+  (forallb (fun e : nat * nat * nat * bool * nat => let '(op, vop, sop, recip, restr) := e in
+             (vop =? sop) &&
+             (if recip then (op =? 4) && (vop =? 3) && (restr =? 2) else (vop =? op))) gen_trivial_assign_scalar = true /\
+   map (fun e : nat * nat * nat * bool * nat => let '(op, _, _, _, _) := e in op) gen_trivial_assign_scalar = [0; 1; 2; 3; 4; 4] /\
+   existsb (fun e : nat * nat * nat * bool * nat => let '(op, vop, _, recip, restr) := e in (op =? 4) && (vop =? 4) && negb recip && (restr =? 1)) gen_trivial_assign_scalar = true) /\
+  (forallb (fun e : nat * nat * nat => let '(_, op, called) := e in op =? called) gen_tensor_assign_dispatch = true /\
+   map (fun e : nat * nat * nat => let '(_, op, _) := e in op) (filter (fun e : nat * nat * nat => let '(k, _, _) := e in k =? 0) gen_tensor_assign_dispatch) = [1; 2; 3; 4; 1; 2; 3; 4] /\
+   map (fun e : nat * nat * nat => let '(_, op, _) := e in op) (filter (fun e : nat * nat * nat => let '(k, _, _) := e in k =? 1) gen_tensor_assign_dispatch) = [0; 1; 2; 3; 4; 0; 1; 2; 3; 4]).
+Proof. exact (conj gen_trivial_assign_expr_eq (conj gen_trivial_assign_scalar_ok gen_tensor_assign_dispatch_ok)). Qed.
+Print Assumptions C02_source_assignment_loops.
+
+(** the four arithmetic expression nodes as compiled (binary_arithmetic_ops.h: the macro expanded for Add, Sub, Mul;
+    binary_div_op.h for Div - the files expressions.h includes), as translated:
+    each of the 72 evaluator overloads returns [left OP right] with the node's own operator, left from _lhs and
+    right from _rhs, a number exactly where the overload is selected for one, both sides evaluated by the same
+    evaluator at the same position - the [EBin] case of [eval_s] / [eval_v] above; and none of the
+    4 x 6 x 3 overloads is missing *)
+Theorem C02_source_arithmetic_nodes :
+  forallb binop_node_ok gen_binop_nodes = true /\
+  length gen_binop_nodes = 72 /\
+  forallb (fun k => existsb (fun e => key_eqb k (binop_key e)) gen_binop_nodes) binop_expected = true.
+Proof. exact gen_binop_nodes_ok. Qed.
+Print Assumptions C02_source_arithmetic_nodes.
+
+(** the elementwise math nodes (expressions/unary_ops/unary_math_ops.h), as translated: the macro's evaluators apply
+    the vector operation in eval / teval and the scalar operation in eval_s / teval_s to the operand evaluated by
+    the same evaluator at the same position; every instantiation pairs a function with itself on vectors and its
+    std:: namesake on scalars (sqrt: Fastor's sqrts); the specialised assignments re-apply the node's own operation *)
+From Coq Require Import String.
+Theorem C02_source_math_nodes :
+  gen_unary_node_evaluators = [(0, 0, 0, true); (1, 1, 1, true); (0, 0, 0, true); (1, 1, 1, true); (2, 0, 2, true); (3, 1, 3, true)]%nat /\
+  forallb unary_row_ok gen_unary_nodes = true /\
+  distinct (map (fun r : string * string * string * string => let '(fn, _, _, _) := r in fn) gen_unary_nodes) = true /\
+  distinct (map (fun r : string * string * string * string => let '(_, _, _, st) := r in st) gen_unary_nodes) = true /\
+  (30 <= List.length gen_unary_nodes)%nat /\
+  forallb (fun a : string * string * string => let '(op, name, kind) := a in
+             existsb (fun r : string * string * string * string => let '(_, simd, _, st) := r in String.eqb st name && String.eqb simd op) gen_unary_nodes)
+          gen_unary_node_assignments = true.
+Proof. exact (conj gen_unary_node_evaluators_ok gen_unary_nodes_ok). Qed.
+Print Assumptions C02_source_math_nodes.
+
+(** the comparison / logical nodes (binary_cmp_ops.h) and the free functions [operator OP(l, r)] that build the
+    arithmetic and comparison nodes, as translated: all 18 evaluator overloads of the comparison macro return
+    [left OP right] with the macro's OP, operands in order, through the function's own evaluator; the eight
+    instantiations pair each operator with its node; every operator function builds its node from (l, r) *)
+Theorem C02_source_comparison_nodes_and_operator_functions :
+  forallb cmp_eval_ok gen_cmp_node_evaluators = true /\
+  forallb (fun k : nat * nat * nat * bool * bool => let '(_, fn, args, gl, gr) := k in
+             existsb (fun e => key_eqb (0, fn, args, gl, gr) (cmp_key e)) gen_cmp_node_evaluators)
+          (filter (fun k : nat * nat * nat * bool * bool => let '(node, _, _, _, _) := k in node =? 1) binop_expected) = true /\
+  List.length gen_cmp_node_evaluators = 18 /\
+  gen_cmp_nodes = [("==", "EQ"); ("!=", "NEQ"); ("<", "LT"); (">", "GT"); ("<=", "LE"); (">=", "GE"); ("&&", "AND"); ("||", "OR")]%string /\
+  forallb (fun f : bool * bool * bool => let '(ln, rn, ordered) := f in ordered && negb (ln && rn)) (gen_cmp_functions ++ gen_binop_functions) = true /\
+  List.length gen_cmp_functions = 4 /\ List.length gen_binop_functions = 8.
+Proof. exact gen_cmp_nodes_ok. Qed.
+Print Assumptions C02_source_comparison_nodes_and_operator_functions.
